@@ -5,7 +5,11 @@ from vlib import Check
 
 PID = 'C19'
 TAGS = {'repair', 'get', 'iter', 'recover', 'inv', 'step', 'layout', 'mem'}
-THEOREMS = []
+THEOREMS = [
+    'Lcdb.C19.repair_entries', 'Lcdb.C19.repair_view_eq', 'Lcdb.C19.repair_iter_newest', 'Lcdb.C19.repair_iter_cursor', 'Lcdb.C19.repair_counters',
+    'Lcdb.C19.write_after_repair_newer', 'Lcdb.C19.write_after_repair_view', 'Lcdb.C19.repair_inv_of_agreement', 'Lcdb.C19.repair_get_newest_partial',
+    'Lcdb.C19.repair_get_stale_witness',
+]
 IMPORTS = ['LcdbModel.Props.C19']
 TARGETS = ['LcdbModel.Props.C19']
 
